@@ -8,6 +8,7 @@ R13.3 Fermi-sea accumulation: a group at energy E is added to all levels ≥ E (
 R13.4 k-resolved and unresolved paths differ only in the result index and the 1/nk normalisation.
 R13.5 band groups are half-open [ib1, ib2) everywhere (selection weight, below-range count, sea completion clamp).
 R13.6 non-additive formulas: value of a group = trace(0..ib2) − trace(0..ib1).
+R13.7 memoised providers (band groups, tetrahedron weights, k-space matrices): the cache key covers every parameter the value depends on.
 """
 from __future__ import annotations
 
@@ -513,10 +514,22 @@ def run(ctx) -> None:
              "additive formulas: trace over the group with the complement as outer states", call, grps[0]["call"] if grps else call.node,
              "the additive branch no longer traces over exactly the group", stmt="additive")
 
+    # ---------------------------------------------------------------- R13.7
+    # the providers of band groups / weights / k-space matrices memoise on the Data_K / TetraWeights object: a key that leaves out a
+    # parameter (e.g. the sea flag) hands the surface groups to a Fermi-sea calculator that asks for the same window later
+    r7 = ctx.rule("R13.7", "memoised providers: the cache key covers every parameter the cached value depends on", min_instances=5)
+    from .memo import check_memo_keys
+    for f_ in idx.all_functions():
+        rp_ = f_.module.relpath
+        if rp_.startswith("wannierberri/data_K/") or rp_.startswith("wannierberri/calculators/") or rp_ == "wannierberri/grid/tetrahedron.py":
+            check_memo_keys(r7, idx, f_)
+
 
 from ..selftest import V  # noqa: E402
 
 SELFTEST = [
+    V("band groups memoised without the sea flag (seeded C13-m6)", "wannierberri/data_K/data_K.py", '        res = []\n        for ik in range(self.nk):\n            res.append(self.get_bands_in_range_groups_ik(ik, emin, emax, degen_thresh, degen_Kramers, sea, Emin=Emin,\n                                                         Emax=Emax, select_bands=select_bands))\n        return res\n', "        if not hasattr(self, '_grp_cache'):\n            self._grp_cache = {}\n        key = (emin, emax, degen_thresh, degen_Kramers, None if select_bands is None else tuple(select_bands))\n        if key not in self._grp_cache:\n            res = []\n            for ik in range(self.nk):\n                res.append(self.get_bands_in_range_groups_ik(ik, emin, emax, degen_thresh, degen_Kramers, sea, Emin=Emin,\n                                                             Emax=Emax, select_bands=select_bands))\n            self._grp_cache[key] = res\n        return self._grp_cache[key]\n", "fire", "R13.7"),
+    V("band groups memoised with a complete key", "wannierberri/data_K/data_K.py", '        res = []\n        for ik in range(self.nk):\n            res.append(self.get_bands_in_range_groups_ik(ik, emin, emax, degen_thresh, degen_Kramers, sea, Emin=Emin,\n                                                         Emax=Emax, select_bands=select_bands))\n        return res\n', "        if not hasattr(self, '_grp_cache'):\n            self._grp_cache = {}\n        key = (emin, emax, degen_thresh, degen_Kramers, sea, None if select_bands is None else tuple(select_bands))\n        if key not in self._grp_cache:\n            res = []\n            for ik in range(self.nk):\n                res.append(self.get_bands_in_range_groups_ik(ik, emin, emax, degen_thresh, degen_Kramers, sea, Emin=Emin,\n                                                             Emax=Emax, select_bands=select_bands))\n            self._grp_cache[key] = res\n        return self._grp_cache[key]\n", "silent", "R13.7"),
     V("groups above the scan no longer dropped (seeded C13-m3)", ST, "                    elif E <= self.EFmax:\n                        iEf = ceil((E - self.EFmin) / self.dEF)\n",
       "                    else:\n                        iEf = min(ceil((E - self.EFmin) / self.dEF), self.nEF_extra - 1)\n", "fire", "R13.3"),
     V("upper end of the scan not extended", ST, "            self.EFmax = Efermi[-1] + self.extraEf * self.dEF\n", "            self.EFmax = Efermi[-1] + self.dEF\n", "fire", "R13.2"),
